@@ -126,7 +126,7 @@ func (m *C13) dataRequestCost(msg *oracletypes.MsgRequestData) (sdk.Coins, map[s
 		if err := obi.Decode(msg.Calldata, &in); err == nil {
 			ids = in.IDs
 		}
-	case scriptSimple:
+	case scriptSimple, scriptDesc:
 		ids = []int64{1, 2, 3}
 	case scriptNoRet, scriptTrap, scriptEmpty, scriptProbe:
 		ids = []int64{1}
